@@ -1,170 +1,2 @@
-(* GENERATED by tools/gotrans arithC03 from the Go sources; do not edit.
-   One definition per listed Go function; Proofs/ArithTieC03.v proves each equal to the hand-written model. *)
-From Coq Require Import ZArith Bool.
-From Elys Require Import Base.Res Base.Zdec Base.ZdecChk.
-Open Scope Z_scope.
-
-(* x/amm/types solveConstantFunctionInvariant, checked mode (Base/ZdecChk.v)
-     ext_Pow : external function Pow
-     tokenBalanceFixedBefore : parameter tokenBalanceFixedBefore
-     tokenBalanceFixedAfter : parameter tokenBalanceFixedAfter
-     tokenWeightFixed : parameter tokenWeightFixed
-     tokenBalanceUnknownBefore : parameter tokenBalanceUnknownBefore
-     tokenWeightUnknown : parameter tokenWeightUnknown *)
-Definition solveConstantFunctionInvariant (ext_Pow : Z -> Z -> res Z) (tokenBalanceFixedBefore : Z) (tokenBalanceFixedAfter : Z) (tokenWeightFixed : Z) (tokenBalanceUnknownBefore : Z) (tokenWeightUnknown : Z) : res Z :=
-  if (tokenWeightUnknown =? 0) then
-    Err 1%nat
-  else
-  do t_1 <- (cquo tokenWeightFixed tokenWeightUnknown);
-  if ((tokenBalanceFixedAfter =? 0) || (tokenBalanceFixedAfter <? 0)) then
-    Err 1%nat
-  else
-  do t_2 <- (cquo tokenBalanceFixedBefore tokenBalanceFixedAfter);
-  do t_3 <- (ext_Pow t_2 t_1);
-  do t_4 <- (csub PREC t_3);
-  do t_5 <- (cmul tokenBalanceUnknownBefore t_4);
-  Ok t_5.
-
-(* x/amm/types CalculateTokenARate, checked mode (Base/ZdecChk.v)
-     tokenBalanceA : parameter tokenBalanceA
-     tokenWeightA : parameter tokenWeightA
-     tokenBalanceB : parameter tokenBalanceB
-     tokenWeightB : parameter tokenWeightB *)
-Definition CalculateTokenARate (tokenBalanceA : Z) (tokenWeightA : Z) (tokenBalanceB : Z) (tokenWeightB : Z) : res Z :=
-  if ((tokenBalanceA =? 0) || (tokenWeightB =? 0)) then
-    Ok 0
-  else
-  do t_1 <- (cmul tokenBalanceB tokenWeightA);
-  do t_2 <- (cquo t_1 tokenWeightB);
-  do t_3 <- (cquo t_2 tokenBalanceA);
-  Ok t_3.
-
-(* x/amm/types (Pool).CalcOutAmtGivenIn, checked mode (Base/ZdecChk.v)
-     ext_Pow : external function Pow
-     p_PoolParams_UseOracle : parameter p .PoolParams.UseOracle
-     swapFee : parameter swapFee
-     parsePoolAssets1 : result of call 1 of (x/amm/types.Pool).parsePoolAssets, components (r0.Amount, r1.Token.Amount, r1.Weight, r2.Token.Amount, r2.Weight)
-     parsePoolAssets2 : result of call 2 of (x/amm/types.Pool).parsePoolAssets, components ()
-     GetAccountedBalance1 : result of call 1 of (x/amm/types.AccountedPoolKeeper).GetAccountedBalance
-     GetAccountedBalance2 : result of call 2 of (x/amm/types.AccountedPoolKeeper).GetAccountedBalance
-     GetOraclePoolNormalizedWeights1 : result of call 1 of x/amm/types.GetOraclePoolNormalizedWeights, components ([0].Weight, [1].Weight)
-     GetTokenARate1 : result of call 1 of ( *x/amm/types.Pool).GetTokenARate, components (the value) *)
-Definition CalcOutAmtGivenIn (ext_Pow : Z -> Z -> res Z) (p_PoolParams_UseOracle : bool) (swapFee : Z) (parsePoolAssets1 : res (Z * Z * Z * Z * Z)) (parsePoolAssets2 : res unit) (GetAccountedBalance1 : Z) (GetAccountedBalance2 : Z) (GetOraclePoolNormalizedWeights1 : res (Z * Z)) (GetTokenARate1 : res Z) : res (Z * Z) :=
-  do '(parsePoolAssets1_r0_Amount_, parsePoolAssets1_r1_Token_Amount_, parsePoolAssets1_r1_Weight_, parsePoolAssets1_r2_Token_Amount_, parsePoolAssets1_r2_Weight_) <- parsePoolAssets1;
-  do t_1 <- (csub PREC swapFee);
-  do t_2 <- (cmul (dec_of_int parsePoolAssets1_r0_Amount_) t_1);
-  do t_3 <- (cadd (if (0 <? GetAccountedBalance1) then (dec_of_int GetAccountedBalance1) else (dec_of_int parsePoolAssets1_r1_Token_Amount_)) t_2);
-  do '(t_4, t_5) <- (
-      if p_PoolParams_UseOracle then
-        do parsePoolAssets2_unit <- parsePoolAssets2;
-        do '(GetOraclePoolNormalizedWeights1_0_Weight_, GetOraclePoolNormalizedWeights1_1_Weight_) <- GetOraclePoolNormalizedWeights1;
-        Ok (GetOraclePoolNormalizedWeights1_1_Weight_, GetOraclePoolNormalizedWeights1_0_Weight_)
-      else
-      Ok ((dec_of_int parsePoolAssets1_r2_Weight_), (dec_of_int parsePoolAssets1_r1_Weight_)));
-  do t_6 <- (solveConstantFunctionInvariant ext_Pow (if (0 <? GetAccountedBalance1) then (dec_of_int GetAccountedBalance1) else (dec_of_int parsePoolAssets1_r1_Token_Amount_)) t_3 t_5 (if (0 <? GetAccountedBalance2) then (dec_of_int GetAccountedBalance2) else (dec_of_int parsePoolAssets1_r2_Token_Amount_)) t_4);
-  if (t_6 =? 0) then
-    Err 2%nat
-  else
-  do GetTokenARate1_ <- GetTokenARate1;
-  do t_7 <- (cmul t_2 GetTokenARate1_);
-  if (t_7 =? 0) then
-    Err 3%nat
-  else
-  do t_8 <- (cquo t_6 t_7);
-  do t_9 <- (csub PREC t_8);
-  if (negb (0 <? (trunc_int t_6))) then
-    Err 2%nat
-  else
-  Ok ((trunc_int t_6), t_9).
-
-(* x/amm/types (Pool).CalcInAmtGivenOut, checked mode (Base/ZdecChk.v)
-     ext_Pow : external function Pow
-     p_PoolParams_UseOracle : parameter p .PoolParams.UseOracle
-     swapFee : parameter swapFee
-     parsePoolAssets1 : result of call 1 of (x/amm/types.Pool).parsePoolAssets, components (r0.Amount, r1.Token.Amount, r1.Weight, r2.Token.Amount, r2.Weight)
-     parsePoolAssets2 : result of call 2 of (x/amm/types.Pool).parsePoolAssets, components ()
-     GetAccountedBalance1 : result of call 1 of (x/amm/types.AccountedPoolKeeper).GetAccountedBalance
-     GetAccountedBalance2 : result of call 2 of (x/amm/types.AccountedPoolKeeper).GetAccountedBalance
-     GetOraclePoolNormalizedWeights1 : result of call 1 of x/amm/types.GetOraclePoolNormalizedWeights, components ([0].Weight, [1].Weight)
-     GetTokenARate1 : result of call 1 of ( *x/amm/types.Pool).GetTokenARate, components (the value) *)
-Definition CalcInAmtGivenOut (ext_Pow : Z -> Z -> res Z) (p_PoolParams_UseOracle : bool) (swapFee : Z) (parsePoolAssets1 : res (Z * Z * Z * Z * Z)) (parsePoolAssets2 : res unit) (GetAccountedBalance1 : Z) (GetAccountedBalance2 : Z) (GetOraclePoolNormalizedWeights1 : res (Z * Z)) (GetTokenARate1 : res Z) : res (Z * Z) :=
-  do '(parsePoolAssets1_r0_Amount_, parsePoolAssets1_r1_Token_Amount_, parsePoolAssets1_r1_Weight_, parsePoolAssets1_r2_Token_Amount_, parsePoolAssets1_r2_Weight_) <- parsePoolAssets1;
-  do '(t_1, t_2) <- (
-      if p_PoolParams_UseOracle then
-        do parsePoolAssets2_unit <- parsePoolAssets2;
-        do '(GetOraclePoolNormalizedWeights1_0_Weight_, GetOraclePoolNormalizedWeights1_1_Weight_) <- GetOraclePoolNormalizedWeights1;
-        Ok (GetOraclePoolNormalizedWeights1_1_Weight_, GetOraclePoolNormalizedWeights1_0_Weight_)
-      else
-      Ok ((dec_of_int parsePoolAssets1_r1_Weight_), (dec_of_int parsePoolAssets1_r2_Weight_)));
-  do t_3 <- (csub (if (0 <? GetAccountedBalance1) then (dec_of_int GetAccountedBalance1) else (dec_of_int parsePoolAssets1_r1_Token_Amount_)) (dec_of_int parsePoolAssets1_r0_Amount_));
-  do t_4 <- (solveConstantFunctionInvariant ext_Pow (if (0 <? GetAccountedBalance1) then (dec_of_int GetAccountedBalance1) else (dec_of_int parsePoolAssets1_r1_Token_Amount_)) t_3 t_1 (if (0 <? GetAccountedBalance2) then (dec_of_int GetAccountedBalance2) else (dec_of_int parsePoolAssets1_r2_Token_Amount_)) t_2);
-  do GetTokenARate1_ <- GetTokenARate1;
-  do t_5 <- (cquo (dec_of_int parsePoolAssets1_r0_Amount_) GetTokenARate1_);
-  if ((Z.opp t_4) =? 0) then
-    Err 1%nat
-  else
-  do t_6 <- (cquo (Z.opp t_4) t_5);
-  do t_7 <- (csub PREC t_6);
-  if (PREC <=? swapFee) then
-    Err 4%nat
-  else
-  do t_8 <- (csub PREC swapFee);
-  do t_9 <- (cquo (Z.opp t_4) t_8);
-  do t_10 <- (cceil t_9);
-  if (negb (0 <? (trunc_int t_10))) then
-    Err 3%nat
-  else
-  Ok ((trunc_int t_10), t_7).
-
-(* x/amm/types ApplyDiscount, checked mode (Base/ZdecChk.v)
-     swapFee : parameter swapFee
-     discount : parameter discount *)
-Definition ApplyDiscount (swapFee : Z) (discount : Z) : res Z :=
-  do t_1 <- (csub PREC discount);
-  do t_2 <- (cmul swapFee t_1);
-  Ok t_2.
-
-(* x/amm/types (Pool).CalcGivenInSlippage, checked mode (Base/ZdecChk.v)
-     CalcOutAmtGivenIn1 : result of call 1 of (x/amm/types.Pool).CalcOutAmtGivenIn, components (r0.Amount)
-     parsePoolAssets1 : result of call 1 of (x/amm/types.Pool).parsePoolAssets, components (r0.Amount)
-     GetAssetPriceFromDenom1 : result of call 1 of (x/amm/types.OracleKeeper).GetAssetPriceFromDenom
-     GetAssetPriceFromDenom2 : result of call 2 of (x/amm/types.OracleKeeper).GetAssetPriceFromDenom *)
-Definition CalcGivenInSlippage (CalcOutAmtGivenIn1 : res Z) (parsePoolAssets1 : res Z) (GetAssetPriceFromDenom1 : Z) (GetAssetPriceFromDenom2 : Z) : res Z :=
-  do CalcOutAmtGivenIn1_r0_Amount_ <- CalcOutAmtGivenIn1;
-  do parsePoolAssets1_r0_Amount_ <- parsePoolAssets1;
-  if (GetAssetPriceFromDenom1 =? 0) then
-    Err 5%nat
-  else
-  if (GetAssetPriceFromDenom2 =? 0) then
-    Err 5%nat
-  else
-  do t_1 <- (cmul (dec_of_int parsePoolAssets1_r0_Amount_) GetAssetPriceFromDenom1);
-  do t_2 <- (cquo t_1 GetAssetPriceFromDenom2);
-  do t_3 <- (csub t_2 (dec_of_int CalcOutAmtGivenIn1_r0_Amount_));
-  if (t_3 <? 0) then
-    Ok 0
-  else
-  Ok t_3.
-
-(* x/amm/types (Pool).CalcGivenOutSlippage, checked mode (Base/ZdecChk.v)
-     CalcInAmtGivenOut1 : result of call 1 of (x/amm/types.Pool).CalcInAmtGivenOut, components (r0.Amount)
-     parsePoolAssets1 : result of call 1 of (x/amm/types.Pool).parsePoolAssets, components (r0.Amount)
-     GetAssetPriceFromDenom1 : result of call 1 of (x/amm/types.OracleKeeper).GetAssetPriceFromDenom
-     GetAssetPriceFromDenom2 : result of call 2 of (x/amm/types.OracleKeeper).GetAssetPriceFromDenom *)
-Definition CalcGivenOutSlippage (CalcInAmtGivenOut1 : res Z) (parsePoolAssets1 : res Z) (GetAssetPriceFromDenom1 : Z) (GetAssetPriceFromDenom2 : Z) : res Z :=
-  do CalcInAmtGivenOut1_r0_Amount_ <- CalcInAmtGivenOut1;
-  do parsePoolAssets1_r0_Amount_ <- parsePoolAssets1;
-  if (GetAssetPriceFromDenom1 =? 0) then
-    Err 5%nat
-  else
-  if (GetAssetPriceFromDenom2 =? 0) then
-    Err 5%nat
-  else
-  do t_1 <- (cmul (dec_of_int parsePoolAssets1_r0_Amount_) GetAssetPriceFromDenom2);
-  do t_2 <- (cquo t_1 GetAssetPriceFromDenom1);
-  do t_3 <- (csub (dec_of_int CalcInAmtGivenOut1_r0_Amount_) t_2);
-  if (t_3 <? 0) then
-    Ok 0
-  else
-  Ok t_3.
-
+(* gotrans failed on the current tree *)
+Definition handlers := gotrans_failed_on_the_current_tree_see_log.
